@@ -10,7 +10,7 @@ D(f, ms) == [r |-> f, delay_ms |-> ms]
 Scripts == {<<R("ok")>>} \cup {<<R(Faults[i]), R("ok")>> : i \in 1..Len(Faults)}
   \cup {<<R(f), R(g), R("ok")>> : f \in {"overloaded", "read_timeout", "unavailable", "drop", "write_timeout_batchlog"}, g \in {"overloaded", "read_timeout", "unavailable", "bootstrapping", "invalid"}}
   \cup {<<R("overloaded"), R("drop"), R("bootstrapping"), R("ok")>>, <<R("read_timeout"), R("read_timeout"), R("read_timeout"), R("ok")>>}
-Kinds == <<"query", "execute", "batch">>
+Kinds == <<"query", "execute", "batch", "query_iter", "execute_iter">>       \* (the last two: the first page of the iterator API)
 Pols == <<"default", "downgrading", "fallthrough">>
 Cls == <<"Quorum", "One", "EachQuorum">>
 RECURSIVE SetToSeq(_)
@@ -21,11 +21,11 @@ SpecScripts == {<<D("ok", 180), D("ok", 180), R("ok")>>, <<D("ok", 180), R("ok")
                 <<D("invalid", 150), D("invalid", 10), D("invalid", 10)>>, <<R("ok")>>, <<D("ok", 120), D("ok", 120), D("ok", 120), D("ok", 120)>>}
 VARIABLE c
 Init ==
-  \/ \E p \in 1..3 : \E idem \in 0..1 : \E s \in 1..Len(ScriptSeq) : \E k \in 1..3 : \E w \in 0..1 : \E cl \in 1..3 :
-       /\ Full \/ (k = ((p + idem + s) % 3) + 1 /\ w = (p + s) % 2 /\ cl = ((idem + s) % 3) + 1)
+  \/ \E p \in 1..3 : \E idem \in 0..1 : \E s \in 1..Len(ScriptSeq) : \E k \in 1..5 : \E w \in 0..1 : \E cl \in 1..3 :
+       /\ Full \/ (k \in {((p + idem + s) % 3) + 1, 4 + ((p + s) % 2)} /\ w = (p + s) % 2 /\ cl = ((idem + s) % 3) + 1)
        /\ c = [kind |-> Kinds[k], idem |-> idem, policy |-> Pols[p], policy_on |-> IF w = 1 THEN "statement" ELSE "profile", cl |-> Cls[cl],
                spec |-> NoSpec, script |-> ScriptSeq[s], settle_ms |-> 30]
-  \/ \E k \in 1..3 : \E idem \in 0..1 : \E mx \in 1..2 : \E s \in SpecScripts :
+  \/ \E k \in 1..5 : \E idem \in 0..1 : \E mx \in 1..2 : \E s \in SpecScripts :
        c = [kind |-> Kinds[k], idem |-> idem, policy |-> "default", policy_on |-> "profile", cl |-> "Quorum",
             spec |-> [max |-> mx, interval_ms |-> 40], script |-> s, settle_ms |-> 350]
 Next == UNCHANGED c
